@@ -113,12 +113,8 @@ def fmt_op(op):
     return ' '.join([op[0], op[1], op[2]] + [str(x) for x in op[3]])
 
 
-def gen_stimuli(consts):
-    """Model-check one MC instance; returns dict(path=stimuli file, states, distinct, transitions, n).
-    Each stimulus line: 'S <id> <fmode> | op ; op ; ...' (fmode is rewritten per job)."""
-    c = dict(MC_DEFAULTS)
-    c.update(consts)
-    key = sha('stim', spec_sha(), json.dumps(c, sort_keys=True))
+def _tlc_stimuli(module, cfgtext, descr):
+    key = sha('stim', spec_sha(), module, cfgtext)
     d = os.path.join(CACHE, 'stim', key)
     meta = os.path.join(d, 'meta.json')
     with Lock(d):
@@ -126,16 +122,16 @@ def gen_stimuli(consts):
             return json.load(open(meta))
         os.makedirs(d, exist_ok=True)
         cfgp = os.path.join(d, 'MC.cfg')
-        open(cfgp, 'w').write(mc_cfg_text(c))
+        open(cfgp, 'w').write(cfgtext)
         t0 = time.time()
         rc, out = java_tlc(['-workers', '1', '-metadir', os.path.join(d, 'md'), '-config', cfgp,
-                            os.path.join(SPEC, 'SVecMC.tla')], timeout=3600, xmx='4g')
+                            os.path.join(SPEC, module + '.tla')], timeout=7200, xmx='6g')
         shutil.rmtree(os.path.join(d, 'md'), ignore_errors=True)
         ok = 'Model checking completed. No error has been found.' in out
         m = re.search(r'(\d+) states generated, (\d+) distinct states found', out)
         if not ok or not m:
             open(os.path.join(d, 'tlc.out'), 'w').write(out)
-            raise RuntimeError('TLC failed on MC instance %s (see %s/tlc.out):\n%s' % (c, d, out[-3000:]))
+            raise RuntimeError('TLC failed on %s %s (see %s/tlc.out):\n%s' % (module, descr, d, out[-3000:]))
         stim = os.path.join(d, 'stimuli.txt')
         n = 0
         seen = set()
@@ -148,17 +144,29 @@ def gen_stimuli(consts):
                 seen.add(body)
                 f.write('S m%d 0 | %s\n' % (n, body))
                 n += 1
-        res = dict(path=stim, generated=int(m.group(1)), distinct=int(m.group(2)), n=n, wall=time.time() - t0,
-                   consts=c, key=key)
+        res = dict(path=stim, generated=max(int(m.group(1)), n), distinct=int(m.group(2)), n=n, wall=time.time() - t0,
+                   consts=descr, key=key)
         json.dump(res, open(meta, 'w'))
         return res
+
+
+def gen_stimuli(consts):
+    """Model-check one MC instance of SVecMC (or SVecOrder when consts has 'Order'); returns
+    dict(path=stimuli file, generated, distinct, n).  Stimulus line: 'S <id> <fmode> | op ; op ; ...'."""
+    if 'Order' in consts:
+        cfg = 'SPECIFICATION Spec\nCONSTANTS\n  Alphabet = %s\n  MaxLen = %d\nCHECK_DEADLOCK FALSE\n' % (
+            tla_const(consts['Alphabet']), consts['MaxLen'])
+        return _tlc_stimuli('SVecOrder', cfg, consts)
+    c = dict(MC_DEFAULTS)
+    c.update(consts)
+    return _tlc_stimuli('SVecMC', mc_cfg_text(c), c)
 
 
 # ----------------------------------------------------------------------------------------------
 # 2. driver build
 # ----------------------------------------------------------------------------------------------
 DRV_DEFAULTS = dict(NA=2, NB=2, ELEM=0, ALLOC=1, POCCA=0, POCMA=0, POCS=0, AE=0, CONSTRUCT=0, SIZET=64,
-                    MAXSZ=0, SOCCC=0, VECTOR=0, std='c++17', cxx='g++', san=False, opt='-O1')
+                    MAXSZ=0, SOCCC=0, VECTOR=0, SPACESHIP=0, std='c++17', cxx='g++', san=False, opt='-O1')
 
 ELEM_NAMES = ['NT', 'TM', 'MO', 'MOT', 'CO', 'TRIV', 'INT']
 
@@ -177,6 +185,8 @@ def drv_name(c):
         s += '-soccc'
     if c['VECTOR']:
         s += '-stdvector'
+    if c.get('SPACESHIP'):
+        s += '-3way'
     s += '-' + c['cxx'] + '-' + c['std'].replace('+', 'p')
     if c.get('defs'):
         s += '-' + '-'.join(c['defs'])
@@ -198,7 +208,7 @@ def build_driver(conf):
             return dict(exe=exe, name=name, conf=c, key=key)
         os.makedirs(d, exist_ok=True)
         flags = ['-std=' + c['std'], c['opt'], '-DNDEBUG', '-w', '-I', os.path.join(REPO, 'source', 'include')]
-        for k in ('NA', 'NB', 'ELEM', 'ALLOC', 'POCCA', 'POCMA', 'POCS', 'AE', 'CONSTRUCT', 'SIZET', 'MAXSZ', 'SOCCC', 'VECTOR'):
+        for k in ('NA', 'NB', 'ELEM', 'ALLOC', 'POCCA', 'POCMA', 'POCS', 'AE', 'CONSTRUCT', 'SIZET', 'MAXSZ', 'SOCCC', 'VECTOR', 'SPACESHIP'):
             flags.append('-DCFG_%s=%s' % (k, c[k]))
         flags.append('-DCFG_NAME="%s"' % name)
         for dname in c.get('defs', []):
